@@ -44,12 +44,26 @@ func generate(w *mon.W) {
 		}
 	}
 	corpus = append(corpus, gen.Seeds()...)
+	for _, kind := range gen.WideKinds {
+		for _, n := range []int{1, 2, 3, 12, 13, 16, 17, 33} {
+			// wide constructs join the mutation corpus; the biggest are only checked as they are
+			corpus = append(corpus, Print(gen.Wide(kind, n), Layout{Mode: 0}).Src)
+		}
+	}
 	do := func(s string) { w.Do(s, func(r *mon.R) { Check(s, r) }) }
+	for _, kind := range gen.WideKinds {
+		for _, n := range gen.WideSizes {
+			do(Print(gen.Wide(kind, n), Layout{Mode: 1}).Src)
+		}
+	}
 	for ci, src := range corpus {
 		if w.Stopped() {
 			return
 		}
 		do(src)
+		if len(gen.Lexemes(src)) > 60 {
+			continue // exhaustive single-token corruption only for programs of moderate length
+		}
 		parts := gen.Lexemes(src)
 		join := func(p []string) string { return strings.Join(p, " ") }
 		for i := range parts {
